@@ -60,6 +60,9 @@ var provTemplates = []struct {
 	{"defer", "func() { defer %s(1) }()", true},
 	{"make-len", "len(make([]int64, %s))", false}, {"make-cap", "make([]int64, 0, %s)", false},
 	{"delete", "dm = {\"k\": 1}\ndelete(dm, %s)\ndm", false}, {"delete-from", "delete(%s, \"k\")", false},
+	// the operand as the name and as the global flag of delete(name, flag), run in a nested scope
+	{"delete-global-flag", "gq = 1\nfunc dq() { delete(\"gq\", %s) }\ntry { dq() } catch e { }\ngq ?? \"gone\"", false}, {"delete-name", "gq = 1\ndelete(%s)\ngq ?? \"gone\"", false},
+	{"delete-name-global", "gq = 1\nfunc dq() { delete(%s, true) }\ntry { dq() } catch e { }\ngq ?? \"gone\"", false},
 	{"assign-elem", "t = %s\nt[0] = 9\nt", false},
 	{"send", "%s <- 1", false}, {"recv", "<- %s", false},
 	{"forward-from", "fwd = make(chan int64, 1)\nfwd <- %s\n<-fwd", false}, {"forward-from-iface", "fwd = make(chan interface, 1)\nfwd <- %s\n<-fwd", false},
